@@ -213,7 +213,7 @@ class Batches:
 
 ALPHA = '()[]=#:-+.>%/\\@HCcNnOoSsPpFlBrI0129*~$!&,;'
 ATOM_ALPHA = '0145CcHaselrJjyt@+-:'
-ATOM_ALPHA2 = '05CH@+-:se'
+ATOM_ALPHA2 = '5CH@+-:s'
 
 
 def sweep_plan(full, l_full, small, l_small):
@@ -323,9 +323,9 @@ def token_alphabet():
 def corr_parser(ck):
     from chython.files.daylight.parser import parser
     alpha = token_alphabet()
-    # quick: every sequence of <= 3 of the 16 tokens, and every sequence of 4 of the first 11 (atoms, bonds, marks, brackets, dot)
-    lf, ls, nsmall = (3, 4, 11) if ck.tier == 'quick' else (4, 5, 12)
-    order = [0, 1, 2, 4, 5, 6, 8, 9, 10, 11, 12, 3, 7, 13, 14, 15]          # the reduced alphabet = the first nsmall of these
+    # quick: every sequence of <= 3 of the 16 tokens, and every sequence of 4 of the first 9 (plain / aromatic / bracket atom, '=', '/', '(', ')', '.', closure 1)
+    lf, ls, nsmall = (3, 4, 9) if ck.tier == 'quick' else (4, 5, 12)
+    order = [0, 1, 5, 6, 8, 9, 10, 11, 2, 4, 12, 3, 7, 13, 14, 15]          # the reduced alphabet = the first nsmall of these
     alpha = [alpha[i] for i in order]
     extra = ('Import ListNotations. Open Scope Z_scope. Definition ta : list token := ' + clist(ctoken(f()) for f in alpha) + '. ' +
              f'Definition ta2 : list token := firstn {nsmall} ta.')
@@ -959,6 +959,15 @@ def run(ck):
                    'translator tools/gen_elements.py (symbols and isotope keys)',
                    'correspondence runner harness/checks/C03.py + harness/coqcases.py', 'CachedMethods shim harness/boot.py',
                    'CPython 3.12.1 (re, str.split, str.isnumeric, int)', 'RDKit 2026.3 (search only)']
+    ck.assumptions += ['the models (coq/model/Tokenize.v, Parser.v, Reader.v) are hand-written mirrors of tokenize.py, parser.py, smiles.py:smiles(), '
+                       '_mapping.py and the structural part of _convert.py; tie = exhaustive / generated correspondence evaluated by vm_compute',
+                       'strings are sequences of code points 0..255; re / str.split / int / dict order of CPython are modelled',
+                       'calc_labels, hydrogen recheck / radical guessing of create_molecule and stereo assignment of postprocess_molecule are not modelled '
+                       '(cases decided there are not compared; RDKit search only)']
+    ck.extra['rule'] = ('correspondence: every string / bracket body / token sequence up to the stated lengths over the stated alphabets (exhaustive), fixed '
+                        'boundary inputs, corpus strings, grammar-generated molecules and reactions with CX blocks, single-edit corruptions, exhaustive small and '
+                        'random atom-map configurations; non-trivial = the implementation returned a value (not an exception). search: malformed stream '
+                        '(non-trivial = an exception was raised), RDKit comparison (non-trivial = more than one atom), E/Z family (non-trivial = RDKit sees a label)')
     timings = {}
     t = time.time()
     proved = True
